@@ -57,11 +57,15 @@ type immCfg struct {
 	// 3 through a middleware registered with the capture route's own parameterised pattern.
 	// The middleware reads every accessor itself before it passes on.
 	Via int
+	// PathOverride: among its response helpers the handler also calls c.Path(other) and c.Path(back).
+	// Kept to a share of the runs: an override may give the context a new path buffer, and the
+	// after-the-handler checks of Params need the buffer to be reused by the next request.
+	PathOverride bool
 }
 
 func (c immCfg) String() string {
-	return fmt.Sprintf("custom=%v cs=%v strict=%v unescape=%v proxy=%d split=%v reducemem=%v nested=%v zerocopyjson=%v stream=%v via=%d",
-		c.Custom, c.CaseSens, c.Strict, c.Unescape, c.Proxy, c.Split, c.ReduceMem, c.Nested, c.ZeroCopyJSON, c.Stream, c.Via)
+	return fmt.Sprintf("custom=%v cs=%v strict=%v unescape=%v proxy=%d split=%v reducemem=%v nested=%v zerocopyjson=%v stream=%v via=%d pathoverride=%v",
+		c.Custom, c.CaseSens, c.Strict, c.Unescape, c.Proxy, c.Split, c.ReduceMem, c.Nested, c.ZeroCopyJSON, c.Stream, c.Via, c.PathOverride)
 }
 
 // body kinds
@@ -1032,7 +1036,7 @@ func immObserver(cfg immCfg, side *immSide) func(c fiber.Ctx, matched bool) erro
 		}
 		// after every single helper, before anything re-reads (and thereby re-parses) the request:
 		// the values handed out so far must still read the same
-		responseHelpers(c, dir, func(step string) {
+		responseHelpers(c, dir, cfg.PathOverride, func(step string) {
 			for _, cp := range cs.caps {
 				if step == "Path(override)" && (cp.acc == "Path" || cp.acc == "Req.Path" || cp.acc == "String") {
 					continue // the handler asked for another path: these name the path itself
@@ -1063,7 +1067,7 @@ func immObserver(cfg immCfg, side *immSide) func(c fiber.Ctx, matched bool) erro
 }
 
 // responseHelpers: the response-producing and link-building helpers of the context.
-func responseHelpers(c fiber.Ctx, dir string, after func(step string)) {
+func responseHelpers(c fiber.Ctx, dir string, pathOverride bool, after func(step string)) {
 	steps := []struct {
 		name string
 		f    func()
@@ -1083,8 +1087,8 @@ func responseHelpers(c fiber.Ctx, dir string, after func(step string)) {
 		}},
 		{"Redirect.To", func() { _ = c.Redirect().With("k", "v", 0x41).To("/elsewhere") }},
 		{"Path(override)", func() {
-			if !strings.HasPrefix(c.Path(), "/cap/") {
-				return // only on the matched capture route
+			if !pathOverride || !strings.HasPrefix(c.Path(), "/cap/") {
+				return // only on the matched capture route, in the runs configured for it
 			}
 			orig := strings.Clone(c.Path())
 			c.Path("/cap/overridden-" + strings.Repeat("o", len(orig)))
@@ -1171,7 +1175,7 @@ func runImmutable(e *ev.Env) {
 	e.Cases("run", e.N(300, 20000), func(c *ev.Case) {
 		r := c.R
 		cfg := immCfg{Custom: r.Chance(1, 3), CaseSens: r.Bool(), Strict: r.Bool(), Unescape: r.Bool(), Proxy: r.Intn(5), Split: r.Bool(),
-			ReduceMem: r.Chance(1, 3), Nested: r.Chance(1, 3), ZeroCopyJSON: r.Chance(1, 3), Stream: r.Chance(1, 3), Via: r.PickW(3, 1, 1, 2)}
+			ReduceMem: r.Chance(1, 3), Nested: r.Chance(1, 3), ZeroCopyJSON: r.Chance(1, 3), Stream: r.Chance(1, 3), Via: r.PickW(3, 1, 1, 2), PathOverride: r.Chance(1, 4)}
 		sh := genShape(r)
 		if cfg.Via != 0 {
 			sh.Route = 0 // a catch-all middleware enters a route for every request
@@ -1491,6 +1495,11 @@ func immCorpus(e *ev.Env) {
 		li := li
 		e.Corpus("rematch-layout-"+strconv.Itoa(li), func(c *ev.Case) { judgeRematch(e, c, li, c.R) })
 	}
+	e.Corpus("path-override-in-handler", func(c *ev.Case) {
+		sh := genShape(c.R)
+		sh.Kind, sh.Route = "none", 0
+		judgeImm(e, c, immCfg{PathOverride: true}, sh, 1, c.R)
+	})
 	e.Corpus("splitting-commas-form", func(c *ev.Case) {
 		sh := genShape(c.R)
 		sh.Kind, sh.Comma = "form", true
